@@ -405,7 +405,8 @@ def nud (inp : Input) (pe : Nat → PState → Except PErr (PNode × PState)) (t
   | .mult => .ok (.wildcard, p)
   | .descendent => .ok (.descendent, p)
   | .minus => do
-    let (rhs, p1) ← pe (bp .minus) p
+    -- the operand of a unary minus is parsed above the binary operators, below the postfix brackets and the dot
+    let (rhs, p1) ← pe (bp .braceOpen) p
     .ok (.neg rhs, p1)
   | .pipe => do
     let (pat, p1) ← pe 0 p
